@@ -1,3 +1,412 @@
 package checks
 
-func c17Concurrent(c *Ctx) {}
+import (
+	"fmt"
+	"runtime"
+	"runtime/debug"
+	"sync"
+	"sync/atomic"
+	"time"
+
+	"github.com/syndtr/goleveldb/leveldb/cache"
+
+	"verif/harness/rng"
+)
+
+// Concurrent stress of cache.Cache + LRU with implementation-side oracles (C17 (b)):
+//   - constructor once per residency: a key never has two live values;
+//   - a value is finalised exactly once, and — unless the cache was force-closed — never while a handle that a
+//     goroutine got from Get and has not yet released is outstanding;
+//   - a delFunc runs exactly once, after the value's finaliser, never while a handle is outstanding;
+//   - two handles to the same live key carry the same value object;
+//   - at quiescent points Size() ≤ capacity and Nodes() = number of live values;
+//   - no panic, no hang.
+
+type ccStress struct {
+	c        *Ctx
+	seed     uint64
+	roundNo  int
+	nkeys    int
+	live     []atomic.Int32 // per (ns,key): values constructed and not finalised
+	ctors    atomic.Int64
+	fins     atomic.Int64
+	forced   atomic.Bool // Close(true) has been called: finalisation under outstanding handles is allowed
+	slowFin  bool        // the finaliser yields (widens the window of races on it)
+	mu       sync.Mutex
+	vals     []*ccVal
+	dels     []*ccDel
+	viol     map[string]string
+	hits     atomic.Int64
+	sameSeen atomic.Int64
+}
+
+type ccVal struct {
+	st      *ccStress
+	ns, key uint64
+	idx     int
+	fin     atomic.Int32
+	out     atomic.Int32 // handles obtained through Get and not yet given to Release
+}
+
+type ccDel struct {
+	n   atomic.Int32
+	v   *ccVal // the value whose handle the deleter held (nil: blind delete)
+	key int
+}
+
+func (s *ccStress) violate(sig, msg string) {
+	s.mu.Lock()
+	if _, ok := s.viol[sig]; !ok {
+		s.viol[sig] = msg
+	}
+	s.mu.Unlock()
+}
+
+func (v *ccVal) Release() {
+	s := v.st
+	if v.fin.Add(1) != 1 {
+		s.violate("cache:finalised-twice", fmt.Sprintf("value #%d of key (%d,%d) was finalised %d times (forced=%v)", v.idx, v.ns, v.key, v.fin.Load(), s.forced.Load()))
+	}
+	if o := v.out.Load(); o != 0 && !s.forced.Load() {
+		s.violate("cache:finalised-while-handle-outstanding", fmt.Sprintf("value #%d of key (%d,%d) finalised while %d handle(s) are outstanding; the cache was not force-closed", v.idx, v.ns, v.key, o))
+	}
+	if s.slowFin {
+		for i := 0; i < 3; i++ {
+			runtime.Gosched()
+		}
+	}
+	s.live[s.ki(v.ns, v.key)].Add(-1)
+	s.fins.Add(1)
+}
+
+func (s *ccStress) ki(ns, key uint64) int { return int(ns)*s.nkeys + int(key) }
+
+func (s *ccStress) newVal(ns, key uint64) *ccVal {
+	v := &ccVal{st: s, ns: ns, key: key}
+	if n := s.live[s.ki(ns, key)].Add(1); n != 1 {
+		s.violate("cache:constructor-twice-per-residency", fmt.Sprintf("setFunc for key (%d,%d) ran while %d earlier value(s) of that key were still live", ns, key, n-1))
+	}
+	s.ctors.Add(1)
+	s.mu.Lock()
+	v.idx = len(s.vals)
+	s.vals = append(s.vals, v)
+	s.mu.Unlock()
+	return v
+}
+
+func (s *ccStress) newDel(v *ccVal, key int) *ccDel {
+	d := &ccDel{v: v, key: key}
+	s.mu.Lock()
+	s.dels = append(s.dels, d)
+	s.mu.Unlock()
+	return d
+}
+
+func (d *ccDel) run(s *ccStress) func() {
+	return func() {
+		if d.n.Add(1) != 1 {
+			s.violate("cache:delfunc-twice", fmt.Sprintf("a delFunc of key index %d ran %d times", d.key, d.n.Load()))
+		}
+		if d.v != nil && !s.forced.Load() {
+			if o := d.v.out.Load(); o != 0 {
+				s.violate("cache:delfunc-while-handle-outstanding", fmt.Sprintf("delFunc of key (%d,%d) ran while %d handle(s) to value #%d are outstanding", d.v.ns, d.v.key, o, d.v.idx))
+			}
+			if d.v.fin.Load() != 1 {
+				s.violate("cache:delfunc-before-finaliser", fmt.Sprintf("delFunc of key (%d,%d) ran before the value #%d was finalised", d.v.ns, d.v.key, d.v.idx))
+			}
+		}
+	}
+}
+
+type ccHeld struct {
+	h *cache.Handle
+	v *ccVal
+}
+
+func (s *ccStress) worker(cc *cache.Cache, r *rng.R, nops, nns, capMax int, keep int) (held []ccHeld) {
+	get := func(ns, key uint64, withSet bool) (ccHeld, bool) {
+		var f func() (int, cache.Value)
+		if withSet {
+			sz := 1 + r.Intn(3)
+			f = func() (int, cache.Value) { return sz, s.newVal(ns, key) }
+		}
+		h := cc.Get(ns, key, f)
+		if h == nil {
+			return ccHeld{}, false
+		}
+		v, _ := h.Value().(*ccVal)
+		if v == nil {
+			if !s.forced.Load() {
+				s.violate("cache:handle-without-value", fmt.Sprintf("Get(%d,%d) returned a handle whose Value() is nil", ns, key))
+			}
+			h.Release()
+			return ccHeld{}, false
+		}
+		v.out.Add(1)
+		if v.ns != ns || v.key != key {
+			s.violate("cache:wrong-value", fmt.Sprintf("Get(%d,%d) returned the value of (%d,%d)", ns, key, v.ns, v.key))
+		}
+		if v.fin.Load() != 0 && !s.forced.Load() {
+			s.violate("cache:get-returned-finalised-value", fmt.Sprintf("Get(%d,%d) returned value #%d, which was already finalised", ns, key, v.idx))
+		}
+		s.hits.Add(1)
+		return ccHeld{h, v}, true
+	}
+	rel := func(x ccHeld) {
+		x.v.out.Add(-1)
+		x.h.Release()
+	}
+	for i := 0; i < nops; i++ {
+		ns, key := uint64(r.Intn(nns)), uint64(r.Intn(s.nkeys))
+		switch x := r.Intn(100); {
+		case x < 38:
+			if x, ok := get(ns, key, r.Chance(9, 10)); ok {
+				held = append(held, x)
+			}
+		case x < 44 && len(held) > 0:
+			// a second handle to a key that is held: same value object
+			a := held[r.Intn(len(held))]
+			if b, ok := get(a.v.ns, a.v.key, true); ok {
+				if b.v != a.v {
+					s.violate("cache:different-values-for-live-key", fmt.Sprintf("key (%d,%d): a handle to value #%d is held, a second Get returned value #%d", a.v.ns, a.v.key, a.v.idx, b.v.idx))
+				}
+				s.sameSeen.Add(1)
+				rel(b)
+			}
+		case x < 72:
+			if len(held) > 0 {
+				j := r.Intn(len(held))
+				rel(held[j])
+				held[j] = held[len(held)-1]
+				held = held[:len(held)-1]
+			}
+		case x < 80:
+			if len(held) > 0 && r.Bool() {
+				a := held[r.Intn(len(held))]
+				cc.Delete(a.v.ns, a.v.key, s.newDel(a.v, s.ki(a.v.ns, a.v.key)).run(s))
+			} else if r.Bool() {
+				cc.Delete(ns, key, s.newDel(nil, s.ki(ns, key)).run(s))
+			} else {
+				cc.Delete(ns, key, nil)
+			}
+		case x < 88:
+			cc.Evict(ns, key)
+		case x < 91:
+			cc.EvictNS(ns)
+		case x < 92:
+			cc.EvictAll()
+		case x < 96:
+			cc.SetCapacity(r.Intn(capMax + 1))
+		default:
+			runtime.Gosched()
+		}
+		for len(held) > 6 {
+			rel(held[0])
+			held = held[1:]
+		}
+	}
+	for len(held) > keep {
+		rel(held[len(held)-1])
+		held = held[:len(held)-1]
+	}
+	return held
+}
+
+// round runs one cache through a concurrent phase, a quiescent check, Close and the final accounting.
+// mode 0: everything released, Close(false); 1: everything released, Close(true); 2: handles kept over Close(false);
+// 3: handles kept over Close(true); 4: Close(false) races with the releases; 5: Close(true) races with the releases.
+func (s *ccStress) round(r *rng.R, mode int) {
+	nworkers := 8 + r.Intn(9)
+	nns := 1 + r.Intn(3)
+	s.nkeys = 4 + r.Intn(24)
+	capMax := 4 + r.Intn(40)
+	s.live = make([]atomic.Int32, nns*s.nkeys)
+	s.vals, s.dels = nil, nil
+	s.forced.Store(false)
+	s.slowFin = mode >= 4 || r.Chance(1, 4)
+	cc := cache.NewCache(cache.NewLRU(capMax))
+	keep := 0
+	if mode >= 2 {
+		keep = 2
+	}
+	if mode >= 4 {
+		keep = 4
+	}
+	helds := make([][]ccHeld, nworkers)
+	var wg sync.WaitGroup
+	start := make(chan struct{})
+	for w := 0; w < nworkers; w++ {
+		wg.Add(1)
+		rr := r.Fork()
+		go func(w int) {
+			defer wg.Done()
+			defer func() {
+				if p := recover(); p != nil {
+					s.violate("cache:panic", fmt.Sprintf("panic in a cache call: %v\n%s", p, debug.Stack()))
+				}
+			}()
+			<-start
+			helds[w] = s.worker(cc, rr, 300+rr.Intn(300), nns, capMax, keep)
+		}(w)
+	}
+	close(start)
+	wg.Wait()
+	outstanding := 0
+	for _, h := range helds {
+		outstanding += len(h)
+	}
+	// quiescent point
+	func() {
+		defer func() {
+			if p := recover(); p != nil {
+				s.violate("cache:panic", fmt.Sprintf("panic at the quiescent point: %v\n%s", p, debug.Stack()))
+			}
+		}()
+		capNow := r.Intn(capMax + 1)
+		cc.SetCapacity(capNow)
+		if outstanding == 0 {
+			if sz := cc.Size(); sz > capNow {
+				s.violate("cache:size-over-capacity", fmt.Sprintf("quiescent, no handle outstanding: Size()=%d > capacity %d (Nodes()=%d)", sz, capNow, cc.Nodes()))
+			}
+			nlive := 0
+			for i := range s.live {
+				nlive += int(s.live[i].Load())
+			}
+			if cc.Nodes() != nlive {
+				s.violate("cache:nodes-vs-live-values", fmt.Sprintf("quiescent, no handle outstanding: Nodes()=%d but %d values are live (constructed and not finalised)", cc.Nodes(), nlive))
+			}
+		}
+		switch mode {
+		case 0, 2:
+			cc.Close(false)
+		case 1, 3:
+			s.forced.Store(true)
+			cc.Close(true)
+		case 4, 5:
+			// Close races with the release of the kept handles
+			var wg2 sync.WaitGroup
+			go2 := make(chan struct{})
+			for _, hs := range helds {
+				for _, x := range hs {
+					wg2.Add(1)
+					go func(x ccHeld) {
+						defer wg2.Done()
+						<-go2
+						x.v.out.Add(-1)
+						x.h.Release()
+					}(x)
+				}
+			}
+			wg2.Add(1)
+			go func() {
+				defer wg2.Done()
+				<-go2
+				if mode == 5 {
+					s.forced.Store(true)
+				}
+				cc.Close(mode == 5)
+			}()
+			close(go2)
+			wg2.Wait()
+			helds = nil
+		}
+		for _, hs := range helds {
+			for _, x := range hs {
+				x.v.out.Add(-1)
+				x.h.Release()
+				x.h.Release() // releasing twice is documented as safe
+			}
+		}
+	}()
+	// final accounting: everything was released and the cache is closed
+	for _, v := range s.vals {
+		if n := v.fin.Load(); n != 1 {
+			s.violate("cache:finalise-count", fmt.Sprintf("after release of every handle and Close (mode %d): value #%d of key (%d,%d) was finalised %d times", mode, v.idx, v.ns, v.key, n))
+			break
+		}
+	}
+	for _, d := range s.dels {
+		if n := d.n.Load(); n != 1 {
+			s.violate("cache:delfunc-count", fmt.Sprintf("after release of every handle and Close (mode %d): a delFunc of key index %d ran %d times", mode, d.key, n))
+			break
+		}
+	}
+	s.c.Res.Count("conc-mode", fmt.Sprintf("mode%d", mode))
+	s.c.Res.CountN("conc", "values", len(s.vals))
+	s.c.Res.CountN("conc", "delfuncs", len(s.dels))
+	s.c.Res.CountN("conc", "workers", nworkers)
+}
+
+func c17Concurrent(c *Ctx) {
+	s := &ccStress{c: c, viol: map[string]string{}}
+	r := c.R.Fork()
+	nrounds := c.Scale(1200, 12000)
+	forceRaceSeen := false
+	for i := 0; i < nrounds && c.TimeLeft(); i++ {
+		rr := r.Fork()
+		mode := i % 6
+		if mode == 5 && forceRaceSeen {
+			mode = 3
+		}
+		s.roundNo = i
+		done := make(chan struct{})
+		go func() { s.round2(rr, mode); close(done) }()
+		select {
+		case <-done:
+		case <-time.After(30 * time.Second):
+			buf := make([]byte, 1<<20)
+			buf = buf[:runtime.Stack(buf, true)]
+			c.Res.Violate("cache:hang", fmt.Sprintf("concurrent round %d (mode %d) did not finish within 30 s:\n%s", i, mode, blockedSummary(string(buf))), map[string]interface{}{"seed": c.Seed, "round": i, "mode": mode})
+			c.Hung = true
+			return
+		}
+		nontriv := s.hits.Load() > 100
+		c.Res.Eval(fmt.Sprintf("conc/%d/%d", c.Seed, i), nontriv)
+		if len(s.viol) > 0 {
+			replay := map[string]interface{}{"kind": "concurrent-stress", "seed": c.Seed, "round": i, "mode": mode,
+				"modes": "0/1: all released then Close(false/true); 2/3: handles kept over Close(false/true); 4/5: Close(false/true) concurrent with the last releases",
+				"replay": "vh -prop C17 -seed <seed> reruns the same rounds; the interleaving itself is up to the scheduler"}
+			// Close(true) racing with Handle.Release: Node.callFinalizer is not synchronised, both callers see
+			// n.value != nil and both call its Release.  Reported once under its own signature; the stress goes on
+			// without that mode so that the other oracles keep running.
+			onlyForceRace := mode == 5
+			for sig := range s.viol {
+				if sig != "cache:finalised-twice" && sig != "cache:finalise-count" && sig != "cache:delfunc-twice" && sig != "cache:delfunc-count" {
+					onlyForceRace = false
+				}
+			}
+			if onlyForceRace {
+				msg := "Close(true) concurrent with Handle.Release: "
+				for _, m := range s.viol {
+					msg += m + "; "
+				}
+				msg += "(Cache.Close calls n.callFinalizer() while Node.unRefExternal, having brought the counter to zero before Close stored 0, calls it too; callFinalizer checks and clears n.value without synchronisation)"
+				c.Res.Violate("cache.Close(force):concurrent-release:finalised-twice", msg, replay)
+				c.Res.Count("conc", "force-close-race-double-finalise")
+				forceRaceSeen = true
+				s.viol = map[string]string{}
+				continue
+			}
+			for sig, msg := range s.viol {
+				c.Res.Violate(sig, msg, replay)
+			}
+			return
+		}
+	}
+	c.Res.CountN("conc", "constructed", int(s.ctors.Load()))
+	c.Res.CountN("conc", "finalised", int(s.fins.Load()))
+	c.Res.CountN("conc", "gets-with-handle", int(s.hits.Load()))
+	c.Res.CountN("conc", "same-value-double-get", int(s.sameSeen.Load()))
+	if len(c.Res.Samples) < 4 {
+		c.Res.Sample(map[string]interface{}{"kind": "concurrent", "rounds": nrounds, "constructed": s.ctors.Load(), "finalised": s.fins.Load()})
+	}
+}
+
+func (s *ccStress) round2(r *rng.R, mode int) {
+	defer func() {
+		if p := recover(); p != nil {
+			s.violate("cache:panic", fmt.Sprintf("panic: %v\n%s", p, debug.Stack()))
+		}
+	}()
+	s.round(r, mode)
+}
